@@ -534,6 +534,40 @@ def nx2diagram_correspondence(rep, trips, disagreements):
 
 
 # ------------------------------------------------------------------ the check
+def decorator_reuse_stream(rep, rng, count):
+    """Oracle-only stream on the real objects: a `diagramize(dom, cod, boxes)` decorator kept in a
+    variable and applied to several function bodies gives, for each body, the diagram the one-shot
+    `@diagramize(...)` syntax gives - nothing of one declaration leaks into the next."""
+    from discopy.monoidal import Ty, Box, Id
+    from discopy import drawing
+    x = Ty("x")
+    f, g, h = Box("f", x, x), Box("g", x @ x, x), Box("h", x, x @ x)
+    bodies = [lambda a, b: (f(a), b), lambda a, b: (a, f(b)), lambda a, b: (f(f(a)), b),
+              lambda a, b: (f(a), f(b)), lambda a, b: h(g(a, b)), lambda a, b: (a, b)]
+    bad = 0
+    for k in range(count):
+        rep.count("stream:decorator-reuse")
+        what = None
+        try:
+            picks = [rng.randrange(len(bodies)) for _ in range(rng.randint(2, 3))]
+            shared = drawing.diagramize(x @ x, x @ x, [f, g, h])
+            reused = [shared(bodies[i]) for i in picks]
+            fresh = [drawing.diagramize(x @ x, x @ x, [f, g, h])(bodies[i]) for i in picks]
+            for i, a, b in zip(picks, reused, fresh):
+                if a != b or (a.dom, a.cod) != (x @ x, x @ x):
+                    what = "body #%d declared through a reused decorator gives %r, the one-shot syntax gives %r" % (i, a, b)
+                    break
+        except Exception as exc:   # noqa
+            what = "reusing a diagramize decorator raised %s: %s" % (type(exc).__name__, exc)
+        if what:
+            bad += 1
+            rep.count("oracle:decorator-reuse:FAIL")
+            if bad <= 3:
+                rep.violation("diagramize: " + what, {"stage": "diagramize"})
+        else:
+            rep.count("oracle:decorator-reuse:pass")
+
+
 def bubble_smoke(rep, di, directory, rng, count):
     """Back-end smoke test on diagrams with bubbles (outside the layout model): bubbles whose
     own domain / codomain have the same or a different length and the same or different objects
@@ -687,6 +721,7 @@ def run(tier, seed):
     nx2diagram_correspondence(rep, trips, disagreements)
     with tempfile.TemporaryDirectory(prefix="c20b-") as bubble_dir:
         bubble_smoke(rep, di, bubble_dir, rng, 25 if quick else 300)
+    decorator_reuse_stream(rep, rng, 30 if quick else 400)
     rep.extra["backend_smoke"] = {
         "kind": "test, not proof", "rendered": state["rendered"], "failed": state["failed"],
         "skipped_empty": state["skipped_empty"], "skipped_budget": state["skipped_budget"],
